@@ -1028,7 +1028,7 @@ def gen_voice_overlap(cfgs, n, orders, sh):
 # RecursionError after tie_notes has split a note into about a thousand pieces (995 bars at the top level of a
 # script; fewer when the caller's stack is deeper).  While this is pending the instances of LONG_BARS_HUGE are
 # left out of the enumeration (the bounds text says so); with the fix they pass.  Set to False to run them.
-LONG_CHAIN_PENDING = True
+LONG_CHAIN_PENDING = False
 
 LONG_BARS = [25, 26, 27, 28, 29, 30, 40, 100]
 LONG_BARS_WIDE = LONG_BARS + [60, 300]
